@@ -374,8 +374,20 @@ def impl(case):
     ids = core.IdMap(nodes)
     if d["op"] == "props":
         n = nodes[d["node"]]
+        top = nodes[0]
+        def live(get):
+            """the iteration is consumed while ANOTHER iteration of the same kind (over the whole first tree) is alive and
+            advanced in between, as in a nested loop or a zip: the two must not share their position"""
+            other = iter(get(top))
+            next(other, None)
+            out_ = []
+            for x in get(n):
+                out_.append(x)
+                next(other, None)
+            return out_
         out = {
-            "anc": ids.list(n.ancestors), "desc": ids.list(n.descendants), "leaves": ids.list(n.leaves),
+            "anc": ids.list(live(lambda x: x.ancestors)), "desc": ids.list(live(lambda x: x.descendants)),
+            "leaves": ids.list(live(lambda x: x.leaves)),
             "sib": ids.list(_real(n.siblings)), "ls": str(ids(n.left_sibling)), "rs": str(ids(n.right_sibling)),
             "path": ids.list(n.node_path), "root": str(ids(n.root)),
             "isroot": "1" if n.is_root is True else ("0" if n.is_root is False else "?"),
@@ -389,6 +401,11 @@ def impl(case):
     except Exception:
         return "rej"
     return "ok " + ids.list(p)
+
+
+def worker_impl(d):
+    """executed in a worker interpreter (props/_twoproc.py): the outcome line of one case"""
+    return impl(Case("", d, ()))
 
 
 def _fields(line):
@@ -471,7 +488,11 @@ def _oracle(case):
         got = list(n.ancestors)
         if not same(got, chain):
             msgs.append(f"ancestors {ids.list(got)} != parent chain {ids.list(chain)}")
-        got = list(n.descendants)
+        # a nested loop: while the outer iteration is suspended, an inner one of the same kind runs to its end
+        got = []
+        for x in n.descendants:
+            got.append(x)
+            _ = list(x.descendants), list(x.leaves)
         if not same(got, sub[1:]):
             msgs.append(f"descendants {ids.list(got)} != nodes below {ids.list(sub[1:])}")
         got = list(n.leaves)
@@ -525,6 +546,13 @@ def _oracle(case):
     except Exception as e:
         if ta is tb:
             msgs.append(f"go_to refused two nodes of one tree: {type(e).__name__}")
+        elif not d.get("hist"):
+            # "nodes of different trees are refused" is not one of the optional type / loop checks: the same call in an
+            # interpreter started with BIGTREE_CONF_ASSERTIONS="" must be refused as well
+            from props import _twoproc
+            off = _twoproc.refusal_differs_off("props.C12:worker_impl", d, "rej", case.line, every=3)
+            if off is not None:
+                msgs.append(f"with BIGTREE_CONF_ASSERTIONS switched off go_to across two trees answers {off[:120]}")
         return msgs
     if ta is not tb:
         msgs.append(f"go_to accepted nodes of different trees: {ids.list(p)}")
